@@ -436,4 +436,26 @@ inline std::string struct_json(const PointCloud &pc, bool is_mesh) {
   return s + "]}";
 }
 
+// ordered digest of a geometry: points, faces in order, every attribute (descriptor + per-point value bytes) in attribute order
+inline uint64_t geom_digest(const PointCloud &pc, bool is_mesh) {
+  uint64_t h = 1469598103934665603ull;
+  const uint32_t np = pc.num_points();
+  h = vrt::fnv1a(&np, 4, h);
+  if (is_mesh) {
+    const Mesh &m = static_cast<const Mesh &>(pc);
+    for (FaceIndex i(0); i < m.num_faces(); ++i) for (int k = 0; k < 3; ++k) { const uint32_t v = m.face(i)[k].value(); h = vrt::fnv1a(&v, 4, h); }
+  }
+  for (int a = 0; a < pc.num_attributes(); ++a) {
+    const PointAttribute *att = pc.attribute(a);
+    const uint32_t d[5] = {att->unique_id(), (uint32_t)att->attribute_type(), (uint32_t)att->data_type(), (uint32_t)att->num_components(), (uint32_t)att->normalized()};
+    h = vrt::fnv1a(d, sizeof d, h);
+    for (PointIndex p(0); p < np; ++p) { const std::string k = raw_key(att, p); h = vrt::fnv1a(k.data(), k.size(), h); }
+  }
+  return h;
+}
+inline std::string h64(uint64_t h) {
+  return "[" + std::to_string((h >> 48) & 0xFFFF) + "," + std::to_string((h >> 32) & 0xFFFF) + "," + std::to_string((h >> 16) & 0xFFFF) + "," + std::to_string(h & 0xFFFF) + "]";
+}
+
+
 }  // namespace vg
